@@ -1304,3 +1304,51 @@ class InitFlow(Contract):
                 f"{q}:C03:C15:the flow is built for the instance's dims / dtype / device around that data transform {tag}")
         p.prove(z3.BoolVal(fk.get("hidden_features") is a.f["flow_kwargs"].d["hidden_features"]), f"{q}:C13:C20:the flow options of the instance are handed to the flow's constructor {tag}")
         p.prove(z3.BoolVal(a.f.get("_flow") is fls[0][1]), f"{q}:C03:the instance holds the flow that was built {tag}")
+
+
+class NLikelihoodEvaluations(Contract):
+    qual = "aspire:Aspire.n_likelihood_evaluations"
+    properties = ("C17",)
+    doc = ("the count the instance reports is the counter object of the sampler of the last sampling call, handed through unchanged (the sampler's counter "
+           "is proved equal to the number of points the user's likelihood was asked to evaluate by the `log_likelihood` / `sample` contracts); before any "
+           "sampling call there is no sampler and the answer is None; asking changes nothing")
+
+    def shapes(self):
+        return [{"sampler": "none"}, {"sampler": "absent"}, {"sampler": "smc"}, {"sampler": "importance"}]
+
+    def must_return(self, shape):
+        return True
+
+    def setup(self, I, shape):
+        f = {}
+        ghost = {"shape": shape}
+        if shape["sampler"] == "none":
+            f["_sampler"] = NONE
+        elif shape["sampler"] != "absent":
+            cnt = IV(z3.Int("points_the_likelihood_was_asked_to_evaluate"))
+            smp = Obj("SMCSampler" if shape["sampler"] == "smc" else "ImportanceSampler", {"n_likelihood_evaluations": cnt})
+            f["_sampler"] = smp
+            ghost.update(cnt=cnt, smp=smp)
+        a = Obj("Aspire", f)
+        if shape["sampler"] == "absent":
+            a.absent.add("_sampler")
+        ghost["a"] = a
+        ghost["before"] = dict(a.f)
+        return Pre(a, [], {}, ghost=ghost)
+
+    def post(self, I, pre, r):
+        p, g, q = I.path, pre.ghost, self.qual
+        sh = g["shape"]["sampler"]
+        if sh in ("none", "absent"):
+            p.prove(z3.BoolVal(r is NONE or isinstance(r, NoneV)), f"{q}:C17:before any sampling call the reported count is None [{sh}]")
+        else:
+            ok = isinstance(r, Z) and r.kind == "int"
+            p.prove(z3.BoolVal(ok), f"{q}:C17:the reported count is an integer [{sh}]")
+            if ok:
+                p.prove(r.e == g["cnt"].e, f"{q}:C17:the reported count equals the sampler's evaluation counter, which counts every point the user's likelihood was asked to evaluate [{sh}]")
+            smp = g["smp"]
+            p.prove(z3.BoolVal(isinstance(smp.f.get("n_likelihood_evaluations"), Z) and smp.f["n_likelihood_evaluations"].e.eq(g["cnt"].e)),
+                    f"{q}:C17:asking for the count leaves the sampler's counter as it was [{sh}]")
+        a = g["a"]
+        p.prove(z3.BoolVal(set(a.f) == set(g["before"]) and all(a.f[k] is v for k, v in g["before"].items())),
+                f"{q}:C17:asking for the count leaves the instance as it was [{sh}]")
